@@ -419,7 +419,34 @@ class G:
         return ('\t{ %s a; %s b; %s c; %s d;\n\ta = b = c = d = %s; %s(a); %s(b); %s(c); %s(d); d = (c = %s, c + 1); %s(d); a = (b = 5) + (c = 6); %s(a); %s((a = 2, b = 3, a + b)); a = b == c; %s(a); }\n'
                 % (ts[0], ts[1], ts[2], ts[3], v if not all(t not in ('double', 'float') for t in ts) or '.' not in v else '7', mx[0], mx[1], mx[2], mx[3], self.small(0, 9), mx[3], mx[0], 'mix', mx[0])).replace('mix((a = 2, b = 3, a + b));', 'mixd((double)(a = 2, b = 3, a + b));')
 
-    SNIPPETS = ['s_addr_const', 's_float_ops', 's_char_sign', 's_assign_chain', 's_vla', 's_vla_param', 's_ptrptr', 's_arith_runtime', 's_typedef_typeof', 's_alignas', 's_nested_calls', 's_init_exprs', 's_enum', 's_array_sum', 's_array2d', 's_struct_copy', 's_struct_call', 's_bitfield_ops', 's_union', 's_switch', 's_goto', 's_loops', 's_recursion', 's_fptr', 's_varargs', 's_strings',
+
+    def s_scopes(self):
+        r = self.r; g = self.id('gv'); T = self.id('Ty'); tag = self.id('tg'); E = self.id('EC')
+        self.top.append('static int %s = 1000;\ntypedef long %s;\nstruct %s { int a; };\nenum { %s = 77 };\n' % (g, T, tag, E))
+        v = [r.randint(1, 99) for _ in range(8)]
+        s = '\t{ int x = %d; %s t1 = 5; struct %s s1 = {%d};\n' % (v[0], T, tag, v[1])
+        s += '\tmix(x); mix(sizeof t1); mix(s1.a); mix(%s); mix(%s);\n' % (g, E)
+        s += '\t{ long x = %d; mix(x); mix(sizeof x); { char x = %d; mix(x); mix(sizeof x); } mix(x); }\n' % (v[2], v[3] % 100)
+        s += '\t{ int %s = %d; mix(%s); { extern int %s; } { int %s = %s + 1; mix(%s); } }\n' % (g, v[4], g, g, g, g, g) if False else '\t{ int %s = %d; mix(%s); { int %s = %d; mix(%s); } mix(%s); }\n' % (g, v[4], g, g, v[5], g, g)
+        s += '\t{ int %s = %d; mix(%s); mix(sizeof %s); { typedef char %s; %s c = 1; mix(sizeof c); } }\n' % (T, v[6], T, T, T, T)
+        s += '\t{ struct %s { char c[3]; } s2; mix(sizeof s2); { struct %s; struct %s *p = 0; mix(p == 0); } mix(sizeof(struct %s)); } mix(sizeof(struct %s));\n' % (tag, tag, tag, tag, tag)
+        s += '\t{ int %s = %d; mix(%s); { enum { %s = 5 }; mix(%s); } mix(%s); } mix(%s);\n' % (E, v[7], E, E, E, E, E)
+        s += '\tfor (int x = 0; x < 2; x++) { int y = x; { int x = 9; y += x; } mix(y); } mix(x);\n'
+        s += '\t{ int x = x + 0 * 0 ? 1 : 1; mix(x >= 0 || x < 0); }\n' if False else ''
+        lb = self.id('lab')
+        s += '\t{ int %s = 3; goto %s; %s: mix(%s); }\n' % (lb, lb, lb, lb)
+        s += '\tswitch (x & 1) { int z; case 0: z = 4; mix(z); break; case 1: z = 6; mix(z); break; }\n'
+        s += '\t{ int i = 7; { int i = i * 0 + 2, j = i + 1; mix(i); mix(j); } mix(i); }\n' if False else '\t{ int i = 7; { int j = i + 1, i2 = j + i; mix(i2); mix(j); } mix(i); }\n'
+        return s + '\tmix(x); mix(t1); }\n'
+
+    def s_func_scopes(self):
+        r = self.r; f = self.id('fs'); g = self.id('sv')
+        self.top.append('static int %s = 3;\nstatic int %s(int %s, int a) { int r = %s + a; { int %s = 10; r += %s; } { extern int %s_ext; } return r + %s; }\nint %s_ext = 5;\n' % (g, f, g, g, g, g, f, g, f))
+        h = self.id('proto')
+        self.top.append('static int %s(int n, int (*cb)(int n, int m), int arr[n]);\nstatic int %s_cb(int a, int b) { return a * 10 + b; }\nstatic int %s(int n, int (*cb)(int, int), int *arr) { return cb(n, arr[0]) + n; }\n' % (h, h, h))
+        return '\t{ int arr[2] = {%d, 2}; mix(%s(%d, %d)); mix(%s); mix(%s(2, %s_cb, arr)); }\n' % (r.randint(1, 9), f, r.randint(1, 50), r.randint(1, 50), g, h, h)
+
+    SNIPPETS = ['s_scopes', 's_func_scopes', 's_addr_const', 's_float_ops', 's_char_sign', 's_assign_chain', 's_vla', 's_vla_param', 's_ptrptr', 's_arith_runtime', 's_typedef_typeof', 's_alignas', 's_nested_calls', 's_init_exprs', 's_enum', 's_array_sum', 's_array2d', 's_struct_copy', 's_struct_call', 's_bitfield_ops', 's_union', 's_switch', 's_goto', 's_loops', 's_recursion', 's_fptr', 's_varargs', 's_strings',
                 's_compound_literal', 's_once', 's_logic', 's_conversions', 's_static_local', 's_ptr_struct_array', 's_many_args', 's_ternary_types']
 
     def program(self, nblocks=12):
